@@ -156,6 +156,29 @@ impl GrammarConfig {
 
     /// Updates the cfg member after the grammar has been checked and transformed
     pub fn update_cfg(&mut self, cfg: Cfg) {
+        // Terminal indices are assigned in the order of first occurrence. A transformation like
+        // left factoring can change this order, thus the terminal indices that are stored in the
+        // scanner configurations (skip tokens and scanner transitions) have to follow.
+        let first_user_token = parol_runtime::lexer::FIRST_USER_TOKEN;
+        let old_terminals = self.cfg.get_ordered_terminals_owned();
+        let new_terminals = cfg.get_ordered_terminals_owned();
+        let remap = |old_index: TerminalIndex| -> TerminalIndex {
+            old_index
+                .checked_sub(first_user_token)
+                .and_then(|i| old_terminals.get(i as usize))
+                .and_then(|(t, k, l, _)| {
+                    new_terminals
+                        .iter()
+                        .position(|(t0, k0, l0, _)| t == t0 && k.behaves_like(*k0) && l0 == l)
+                })
+                .map_or(old_index, |i| i as TerminalIndex + first_user_token)
+        };
+        for sc in self.scanner_configurations.iter_mut() {
+            sc.skip_tokens.iter_mut().for_each(|t| *t = remap(*t));
+            sc.skip_tokens.sort();
+            sc.skip_tokens.dedup();
+            sc.transitions.iter_mut().for_each(|(t, _)| *t = remap(*t));
+        }
         self.cfg = cfg;
     }
 
